@@ -1163,6 +1163,25 @@ Section Top.
       apply Hk; auto.
     - apply (J_ret any tt tt Logic.I); auto.
   Qed.
+
+  Lemma J_doPrint_loop a1 : forall a2 argNum prev, Forall2 lrel a1 a2 ->
+    JS NoO any (doPrint_loop rec argNum prev a1) (doPrint_loop rec argNum prev a2).
+  Proof.
+    induction a1 as [|x r IH]; intros a2 argNum prev H; inversion H as [|? y ? r2 Hxy Hr]; subst; cbn [doPrint_loop]; [apply J_JS; now apply J_ret|].
+    destruct (lrel_tinfo _ _ Hxy) as (_ & _ & _ & _ & _ & Es & _). rewrite <- Es.
+    jba; [| destruct ((0 <? argNum)%nat && negb (is_string_kind x) && negb prev); [apply kovr_wbyte | intros s; reflexivity] | intros _ _ _].
+    { destruct ((0 <? argNum)%nat && negb (is_string_kind x) && negb prev); [apply J_JS, J_wbyte | apply J_JS; now apply J_ret]. }
+    jba; [| apply Hkrec | intros _ _ _; now apply IH].
+    intros s1 s2 N S Hn.
+    pose proof (Hrec (CPrintArg x 118) (CPrintArg y 118) (conj eq_refl Hxy) s1 s2 N S (NoO_HS _ _ _ Hn)) as R.
+    destruct (rec (CPrintArg x 118) s1) as [[u1|?| |?] p], (rec (CPrintArg y 118) s2) as [[u2|?| |?] q]; try exact Logic.I.
+    destruct R as (_ & R). exact (conj Logic.I R).
+  Qed.
+
+  Lemma J_doPrint a1 a2 : Forall2 lrel a1 a2 -> JS NoO any (doPrint rec a1) (doPrint rec a2).
+  Proof.
+    intros Ha. unfold doPrint. jb; [apply J_enter_safe | apply kovr_enter_safe | intros _ _ _]. now apply J_doPrint_loop.
+  Qed.
 End Top.
 
 (* ---------- the theorem ---------- *)
@@ -1211,3 +1230,42 @@ Proof.
 Qed.
 
 Print Assumptions sprintf_leaf_noninterference.
+
+(* the same for Sprint *)
+Theorem sprint_leaf_dsim fuel env a1 a2 o1 o2 :
+  osane (orc env) -> Forall2 lrel a1 a2 ->
+  sprint fuel env a1 = ROk o1 -> sprint fuel env a2 = ROk o2 ->
+  exists ops1 ops2 m', o_log o1 = ops1 ++ [OTake] /\ o_log o2 = ops2 ++ [OTake] /\
+                       o_bytes o1 = output ops1 /\ o_bytes o2 = output ops2 /\ dsim MUnsafe ops1 ops2 m'.
+Proof.
+  intros Ho Ha H1 H2. unfold sprint in H1, H2.
+  destruct fuel as [|k]; [discriminate|]. cbn [ev] in H1, H2.
+  destruct NB_newPrinter as (N0 & S0 & Hn0).
+  assert (JS NoO any (doPrint (ev k env) a1 ;;; ret RU) (doPrint (ev k env) a2 ;;; ret RU)) as Hj.
+  { eapply JS_bind; [|intros; now apply J_ret].
+    exact (J_doPrint (ev k env) (ev_leaf_rel k env Ho) (fun c => kovr_ev k env c) a1 a2 Ha). }
+  specialize (Hj newPrinter newPrinter N0 S0 Hn0).
+  destruct ((doPrint (ev k env) a1 ;;; ret RU) newPrinter) as [[r1|?| |?] s1] eqn:X1; try discriminate.
+  destruct ((doPrint (ev k env) a2 ;;; ret RU) newPrinter) as [[r2|?| |?] s2] eqn:X2; try discriminate.
+  destruct Hj as (_ & N' & S' & (d1 & d2 & L1 & L2 & D)).
+  cbn [finish] in H1, H2. unfold l_step in H1, H2. injection H1 as <-. injection H2 as <-. cbn [o_log o_bytes].
+  exists (rev (rlog (pl s1))), (rev (rlog (pl s2))), (lmode (pl s1)).
+  split; [reflexivity|]. split; [reflexivity|].
+  split; [unfold output, redactable_bytes; rewrite <- (lok (pl s1)); reflexivity|].
+  split; [unfold output, redactable_bytes; rewrite <- (lok (pl s2)); reflexivity|].
+  rewrite L1, L2. cbn [newPrinter fresh_pp pl l_init rlog]. rewrite !app_nil_r. exact D.
+Qed.
+
+Theorem sprint_leaf_noninterference fuel env a1 a2 o1 o2 :
+  osane (orc env) -> Forall2 lrel a1 a2 ->
+  sprint fuel env a1 = ROk o1 -> sprint fuel env a2 = ROk o2 ->
+  forall ops1 ops2, o_log o1 = ops1 ++ [OTake] -> o_log o2 = ops2 ++ [OTake] ->
+  rawok ops1 = true -> ptail_ok_from init ops1 = true -> ptail_ok_from init ops2 = true ->
+  Markers.redact_b (o_bytes o1) = Markers.redact_b (o_bytes o2).
+Proof.
+  intros Ho Ha H1 H2 ops1 ops2 E1 E2 Hr T1 T2.
+  destruct (sprint_leaf_dsim fuel env a1 a2 o1 o2 Ho Ha H1 H2) as (p1 & p2 & m' & F1 & F2 & B1 & B2 & D).
+  rewrite E1 in F1. rewrite E2 in F2. apply app_inj_tail in F1, F2. destruct F1 as [<- _], F2 as [<- _].
+  rewrite B1, B2. eapply redact_noninterference_seg; eassumption.
+Qed.
+Print Assumptions sprint_leaf_noninterference.
